@@ -116,119 +116,140 @@ fn check_raw(rv: &RawVector, model: &Bits, step: usize, op: &str, deep: bool) ->
     Ok(())
 }
 
+#[derive(Default)]
+pub struct RawStats {
+    pub shrunk_with_ones: bool,
+    pub regrown: bool,
+    pub cross_word: bool,
+}
+
+/// Apply one operation to the vector and to the model; the operation's own return value is checked here.
+pub fn step_raw(rv: &mut RawVector, model: &mut Bits, op: &RawOp, step: usize, st: &mut RawStats) -> Result<(), Fail> {
+    match op {
+        RawOp::PushBit(b) => {
+            rv.push_bit(*b);
+            model.push(*b);
+            st.regrown |= st.shrunk_with_ones;
+        }
+        RawOp::PushInt(v, w) => {
+            let w = *w as usize % 65;
+            let old = model.len;
+            unsafe { rv.push_int(*v, w) };
+            model.resize(old + w, false);
+            model.write(old, *v, w);
+            if w > 0 && old / 64 != (old + w - 1) / 64 {
+                st.cross_word = true;
+            }
+            st.regrown |= st.shrunk_with_ones && w > 0;
+        }
+        RawOp::PopBit => {
+            let had_ones = model.count_ones() > 0;
+            let got = rv.pop_bit();
+            let want = model.pop();
+            ensure_eq!(got, want, "RawVector.pop_bit", "pop_bit() at step {}", step);
+            st.shrunk_with_ones |= had_ones && want.is_some();
+        }
+        RawOp::PopInt(w) => {
+            let w = *w as usize % 65;
+            let got = unsafe { rv.pop_int(w) };
+            if model.len >= w {
+                let want = model.read(model.len - w, w);
+                ensure_eq!(got, Some(want), "RawVector.pop_int", "pop_int({}) at step {}", w, step);
+                if w > 0 {
+                    st.shrunk_with_ones |= want != 0;
+                    if (model.len - w) / 64 != (model.len - 1) / 64 {
+                        st.cross_word = true;
+                    }
+                }
+                let nl = model.len - w;
+                model.resize(nl, false);
+            } else {
+                ensure_eq!(got, None, "RawVector.pop_int", "pop_int({}) on a vector of {} bits at step {}", w, model.len, step);
+            }
+        }
+        RawOp::SetBit(f, b) => {
+            if model.len > 0 {
+                let i = frac(*f, model.len - 1);
+                rv.set_bit(i, *b);
+                model.set(i, *b);
+                ensure_eq!(rv.bit(i), *b, "RawVector.set_bit", "bit({}) right after set_bit", i);
+            }
+        }
+        RawOp::SetInt(f, v, w) => {
+            let w = (*w as usize % 65).min(model.len);
+            if w > 0 {
+                let off = frac(*f, model.len - w);
+                unsafe { rv.set_int(off, *v, w) };
+                model.write(off, *v, w);
+                ensure_eq!(unsafe { rv.int(off, w) }, *v & mask(w), "RawVector.int", "int({}, {}) right after set_int", off, w);
+                if off / 64 != (off + w - 1) / 64 {
+                    st.cross_word = true;
+                }
+            }
+        }
+        RawOp::Resize(f, b) => {
+            let nl = len_of(*f);
+            if nl < model.len {
+                st.shrunk_with_ones |= model.count_ones() > 0;
+            } else if nl > model.len {
+                st.regrown |= st.shrunk_with_ones;
+            }
+            rv.resize(nl, *b);
+            model.resize(nl, *b);
+        }
+        RawOp::Clear => {
+            st.shrunk_with_ones |= model.count_ones() > 0;
+            rv.clear();
+            *model = Bits::zeros(0);
+        }
+        RawOp::Reserve(a) => {
+            // capacity is not part of the property (and reserve() is observed not to always reach len + additional,
+            // see DESIGN.md observation O3): only the content must be unaffected
+            rv.reserve(*a as usize % 5000);
+        }
+        RawOp::Complement => {
+            *rv = rv.complement();
+            *model = model.complement();
+        }
+        RawOp::WithLen(f, b) => {
+            let nl = len_of(*f);
+            *rv = RawVector::with_len(nl, *b);
+            *model = Bits::filled(nl, *b);
+        }
+        RawOp::WithCapacity(c) => {
+            *rv = RawVector::with_capacity(*c as usize);
+            *model = Bits::zeros(0);
+        }
+        RawOp::Clone => {
+            let c = rv.clone();
+            ensure!(c == *rv, "RawVector.clone", "clone != original");
+            *rv = c;
+        }
+    }
+    Ok(())
+}
+
+/// A raw vector produced by an operation history, with its reference content.
+pub fn raw_by_history(ops: &[RawOp]) -> Result<(RawVector, Bits), Fail> {
+    let mut rv = RawVector::new();
+    let mut model = Bits::zeros(0);
+    let mut st = RawStats::default();
+    for (k, op) in ops.iter().enumerate() {
+        step_raw(&mut rv, &mut model, op, k + 1, &mut st)?;
+    }
+    Ok((rv, model))
+}
+
 fn run_raw(ops: &[RawOp], rep: &mut Report) -> Result<(), Fail> {
     let mut rv = RawVector::new();
     let mut model = Bits::zeros(0);
-    let mut shrunk_with_ones = false;
-    let mut regrown = false;
-    let mut cross_word = false;
+    let mut st = RawStats::default();
     check_raw(&rv, &model, 0, "new", true)?;
     for (k, op) in ops.iter().enumerate() {
         let step = k + 1;
         let name = format!("{:?}", op);
-        match op {
-            RawOp::PushBit(b) => {
-                rv.push_bit(*b);
-                model.push(*b);
-                regrown |= shrunk_with_ones;
-            }
-            RawOp::PushInt(v, w) => {
-                let w = *w as usize % 65;
-                let old = model.len;
-                unsafe { rv.push_int(*v, w) };
-                model.resize(old + w, false);
-                model.write(old, *v, w);
-                if w > 0 && old / 64 != (old + w - 1) / 64 {
-                    cross_word = true;
-                }
-                regrown |= shrunk_with_ones && w > 0;
-            }
-            RawOp::PopBit => {
-                let had_ones = model.count_ones() > 0;
-                let got = rv.pop_bit();
-                let want = model.pop();
-                ensure_eq!(got, want, "RawVector.pop_bit", "pop_bit() at step {}", step);
-                shrunk_with_ones |= had_ones && want.is_some();
-            }
-            RawOp::PopInt(w) => {
-                let w = *w as usize % 65;
-                let got = unsafe { rv.pop_int(w) };
-                if model.len >= w {
-                    let want = model.read(model.len - w, w);
-                    ensure_eq!(got, Some(want), "RawVector.pop_int", "pop_int({}) at step {}", w, step);
-                    if w > 0 {
-                        shrunk_with_ones |= want != 0;
-                        if (model.len - w) / 64 != (model.len - 1) / 64 {
-                            cross_word = true;
-                        }
-                    }
-                    let nl = model.len - w;
-                    model.resize(nl, false);
-                } else {
-                    ensure_eq!(got, None, "RawVector.pop_int", "pop_int({}) on a vector of {} bits at step {}", w, model.len, step);
-                }
-            }
-            RawOp::SetBit(f, b) => {
-                if model.len > 0 {
-                    let i = frac(*f, model.len - 1);
-                    rv.set_bit(i, *b);
-                    model.set(i, *b);
-                    ensure_eq!(rv.bit(i), *b, "RawVector.set_bit", "bit({}) right after set_bit", i);
-                }
-            }
-            RawOp::SetInt(f, v, w) => {
-                let w = (*w as usize % 65).min(model.len);
-                if w > 0 {
-                    let off = frac(*f, model.len - w);
-                    unsafe { rv.set_int(off, *v, w) };
-                    model.write(off, *v, w);
-                    ensure_eq!(unsafe { rv.int(off, w) }, *v & mask(w), "RawVector.int", "int({}, {}) right after set_int", off, w);
-                    if off / 64 != (off + w - 1) / 64 {
-                        cross_word = true;
-                    }
-                }
-            }
-            RawOp::Resize(f, b) => {
-                let nl = len_of(*f);
-                if nl < model.len {
-                    shrunk_with_ones |= model.count_ones() > 0;
-                } else if nl > model.len {
-                    regrown |= shrunk_with_ones;
-                }
-                rv.resize(nl, *b);
-                model.resize(nl, *b);
-            }
-            RawOp::Clear => {
-                shrunk_with_ones |= model.count_ones() > 0;
-                rv.clear();
-                model = Bits::zeros(0);
-            }
-            RawOp::Reserve(a) => {
-                let add = *a as usize % 5000;
-                // capacity is not part of the property (and reserve() is observed not to always reach len + additional,
-                // see DESIGN.md observation O3): only the content must be unaffected
-                rv.reserve(add);
-            }
-            RawOp::Complement => {
-                rv = rv.complement();
-                model = model.complement();
-            }
-            RawOp::WithLen(f, b) => {
-                let nl = len_of(*f);
-                rv = RawVector::with_len(nl, *b);
-                model = Bits::filled(nl, *b);
-            }
-            RawOp::WithCapacity(c) => {
-                rv = RawVector::with_capacity(*c as usize);
-                model = Bits::zeros(0);
-            }
-            RawOp::Clone => {
-                let c = rv.clone();
-                ensure!(c == rv, "RawVector.clone", "clone != original");
-                rv = c;
-            }
-        }
-        // random reads within the vector
+        step_raw(&mut rv, &mut model, op, step, &mut st)?;
+        // reads within the vector
         if model.len > 0 {
             let i = (k * 7919) % model.len;
             ensure_eq!(rv.bit(i), model.get(i), "RawVector.bit", "bit({}) after step {} ({})", i, step, name);
@@ -239,9 +260,9 @@ fn run_raw(ops: &[RawOp], rep: &mut Report) -> Result<(), Fail> {
         ensure_eq!(unsafe { rv.int(model.len, 0) }, 0, "RawVector.int", "zero-width read");
         check_raw(&rv, &model, step, &name, model.len <= 300 || step == ops.len())?;
     }
-    rep.class_if(cross_word, "raw:cross-word-field");
-    rep.class_if(shrunk_with_ones && regrown, "raw:shrink-then-grow");
-    if shrunk_with_ones && regrown {
+    rep.class_if(st.cross_word, "raw:cross-word-field");
+    rep.class_if(st.shrunk_with_ones && st.regrown, "raw:shrink-then-grow");
+    if st.shrunk_with_ones && st.regrown {
         rep.nontrivial(hash_of(&ops));
     }
     rep.class("raw");
@@ -249,9 +270,9 @@ fn run_raw(ops: &[RawOp], rep: &mut Report) -> Result<(), Fail> {
 }
 
 #[derive(Clone, Debug)]
-struct IntModel {
-    width: usize,
-    items: Vec<u64>,
+pub struct IntModel {
+    pub width: usize,
+    pub items: Vec<u64>,
 }
 
 fn packed(model: &IntModel) -> Bits {
@@ -356,112 +377,132 @@ fn typed(t: u8, v: u64) -> u64 {
     }
 }
 
+#[derive(Default)]
+pub struct IntStats {
+    pub shrunk: bool,
+    pub regrown: bool,
+    pub set_then_pack: bool,
+    pub did_set: bool,
+    pub wide_value: bool,
+}
+
+pub fn step_int(iv: &mut IntVector, model: &mut IntModel, op: &IntOp, step: usize, st: &mut IntStats) -> Result<(), Fail> {
+    match op {
+        IntOp::New(w) => {
+            let w = (*w as usize % 64) + 1;
+            *iv = IntVector::new(w).expect("valid width");
+            *model = IntModel { width: w, items: Vec::new() };
+        }
+        IntOp::WithLen(f, w, v) => {
+            let w = (*w as usize % 64) + 1;
+            let n = len_of(*f) % 300;
+            *iv = IntVector::with_len(n, w, *v).expect("valid width");
+            *model = IntModel { width: w, items: vec![*v & mask(w); n] };
+            st.wide_value |= *v != *v & mask(w);
+        }
+        IntOp::WithCapacity(c, w) => {
+            let w = (*w as usize % 64) + 1;
+            *iv = IntVector::with_capacity(*c as usize % 3000, w).expect("valid width");
+            *model = IntModel { width: w, items: Vec::new() };
+        }
+        IntOp::Default => {
+            *iv = IntVector::default();
+            *model = IntModel { width: 64, items: Vec::new() };
+        }
+        IntOp::FromVec(t, vals) => {
+            *iv = from_vec(*t, vals);
+            *model = IntModel { width: typed_width(*t), items: vals.iter().map(|&v| typed(*t, v)).collect() };
+        }
+        IntOp::Collect(t, vals) => {
+            *iv = collect(*t, vals);
+            *model = IntModel { width: typed_width(*t), items: vals.iter().map(|&v| typed(*t, v)).collect() };
+        }
+        IntOp::Push(v) => {
+            iv.push(*v);
+            model.items.push(*v & mask(model.width));
+            st.wide_value |= *v != *v & mask(model.width);
+            st.regrown |= st.shrunk;
+        }
+        IntOp::Pop => {
+            let got = iv.pop();
+            let want = model.items.pop();
+            ensure_eq!(got, want, "IntVector.pop", "pop() at step {}", step);
+            st.shrunk |= want.map(|v| v != 0).unwrap_or(false);
+        }
+        IntOp::Set(f, v) => {
+            if !model.items.is_empty() {
+                let i = frac(*f, model.items.len() - 1);
+                iv.set(i, *v);
+                model.items[i] = *v & mask(model.width);
+                st.wide_value |= *v != *v & mask(model.width);
+                st.did_set = true;
+                ensure_eq!(iv.get(i), *v & mask(model.width), "IntVector.set", "get({}) right after set", i);
+            }
+        }
+        IntOp::Resize(f, v) => {
+            let n = len_of(*f) % 300;
+            if n < model.items.len() {
+                st.shrunk |= model.items[n..].iter().any(|&x| x != 0);
+            } else if n > model.items.len() {
+                st.regrown |= st.shrunk;
+                st.wide_value |= *v != *v & mask(model.width);
+            }
+            iv.resize(n, *v);
+            model.items.resize(n, *v & mask(model.width));
+        }
+        IntOp::Clear => {
+            st.shrunk |= model.items.iter().any(|&x| x != 0);
+            iv.clear();
+            model.items.clear();
+        }
+        IntOp::Reserve(a) => {
+            iv.reserve(*a as usize % 2000);
+        }
+        IntOp::Pack => {
+            iv.pack();
+            if let Some(&max) = model.items.iter().max() {
+                model.width = bit_len(max);
+                st.set_then_pack |= st.did_set;
+            }
+        }
+        IntOp::Extend(t, vals) => {
+            extend(iv, *t, vals);
+            for &v in vals {
+                let tv = typed(*t, v);
+                model.items.push(tv & mask(model.width));
+                st.wide_value |= tv != tv & mask(model.width);
+            }
+            st.regrown |= st.shrunk && !vals.is_empty();
+        }
+        IntOp::Clone => {
+            let c = iv.clone();
+            ensure!(c == *iv, "IntVector.clone", "clone != original");
+            *iv = c;
+        }
+    }
+    Ok(())
+}
+
+/// An integer vector produced by an operation history, with its reference (width, items).
+pub fn int_by_history(ops: &[IntOp]) -> Result<(IntVector, IntModel), Fail> {
+    let mut iv = IntVector::default();
+    let mut model = IntModel { width: 64, items: Vec::new() };
+    let mut st = IntStats::default();
+    for (k, op) in ops.iter().enumerate() {
+        step_int(&mut iv, &mut model, op, k + 1, &mut st)?;
+    }
+    Ok((iv, model))
+}
+
 fn run_int(ops: &[IntOp], rep: &mut Report) -> Result<(), Fail> {
     let mut iv = IntVector::default();
     let mut model = IntModel { width: 64, items: Vec::new() };
     check_int(&iv, &model, 0, "default", true)?;
-    let mut shrunk = false;
-    let mut regrown = false;
-    let mut set_then_pack = false;
-    let mut did_set = false;
-    let mut wide_value = false;
+    let mut st = IntStats::default();
     for (k, op) in ops.iter().enumerate() {
         let step = k + 1;
         let name = format!("{:?}", op);
-        match op {
-            IntOp::New(w) => {
-                let w = (*w as usize % 64) + 1;
-                iv = IntVector::new(w).expect("valid width");
-                model = IntModel { width: w, items: Vec::new() };
-            }
-            IntOp::WithLen(f, w, v) => {
-                let w = (*w as usize % 64) + 1;
-                let n = len_of(*f) % 300;
-                iv = IntVector::with_len(n, w, *v).expect("valid width");
-                model = IntModel { width: w, items: vec![*v & mask(w); n] };
-                wide_value |= *v != *v & mask(w);
-            }
-            IntOp::WithCapacity(c, w) => {
-                let w = (*w as usize % 64) + 1;
-                iv = IntVector::with_capacity(*c as usize % 3000, w).expect("valid width");
-                model = IntModel { width: w, items: Vec::new() };
-            }
-            IntOp::Default => {
-                iv = IntVector::default();
-                model = IntModel { width: 64, items: Vec::new() };
-            }
-            IntOp::FromVec(t, vals) => {
-                iv = from_vec(*t, vals);
-                model = IntModel { width: typed_width(*t), items: vals.iter().map(|&v| typed(*t, v)).collect() };
-            }
-            IntOp::Collect(t, vals) => {
-                iv = collect(*t, vals);
-                model = IntModel { width: typed_width(*t), items: vals.iter().map(|&v| typed(*t, v)).collect() };
-            }
-            IntOp::Push(v) => {
-                iv.push(*v);
-                model.items.push(*v & mask(model.width));
-                wide_value |= *v != *v & mask(model.width);
-                regrown |= shrunk;
-            }
-            IntOp::Pop => {
-                let got = iv.pop();
-                let want = model.items.pop();
-                ensure_eq!(got, want, "IntVector.pop", "pop() at step {}", step);
-                shrunk |= want.map(|v| v != 0).unwrap_or(false);
-            }
-            IntOp::Set(f, v) => {
-                if !model.items.is_empty() {
-                    let i = frac(*f, model.items.len() - 1);
-                    iv.set(i, *v);
-                    model.items[i] = *v & mask(model.width);
-                    wide_value |= *v != *v & mask(model.width);
-                    did_set = true;
-                    ensure_eq!(iv.get(i), *v & mask(model.width), "IntVector.set", "get({}) right after set", i);
-                }
-            }
-            IntOp::Resize(f, v) => {
-                let n = len_of(*f) % 300;
-                if n < model.items.len() {
-                    shrunk |= model.items[n..].iter().any(|&x| x != 0);
-                } else if n > model.items.len() {
-                    regrown |= shrunk;
-                    wide_value |= *v != *v & mask(model.width);
-                }
-                iv.resize(n, *v);
-                model.items.resize(n, *v & mask(model.width));
-            }
-            IntOp::Clear => {
-                shrunk |= model.items.iter().any(|&x| x != 0);
-                iv.clear();
-                model.items.clear();
-            }
-            IntOp::Reserve(a) => {
-                let add = *a as usize % 2000;
-                iv.reserve(add);
-            }
-            IntOp::Pack => {
-                iv.pack();
-                if let Some(&max) = model.items.iter().max() {
-                    model.width = bit_len(max);
-                    set_then_pack |= did_set;
-                }
-            }
-            IntOp::Extend(t, vals) => {
-                extend(&mut iv, *t, vals);
-                for &v in vals {
-                    let tv = typed(*t, v);
-                    model.items.push(tv & mask(model.width));
-                    wide_value |= tv != tv & mask(model.width);
-                }
-                regrown |= shrunk && !vals.is_empty();
-            }
-            IntOp::Clone => {
-                let c = iv.clone();
-                ensure!(c == iv, "IntVector.clone", "clone != original");
-                iv = c;
-            }
-        }
+        step_int(&mut iv, &mut model, op, step, &mut st)?;
         if !model.items.is_empty() {
             let i = (k * 7919) % model.items.len();
             ensure_eq!(iv.get(i), model.items[i], "IntVector.get", "get({}) after step {} ({})", i, step, name);
@@ -469,10 +510,10 @@ fn run_int(ops: &[IntOp], rep: &mut Report) -> Result<(), Fail> {
         check_int(&iv, &model, step, &name, model.items.len() <= 80 || step == ops.len())?;
     }
     rep.class(&format!("int:width:{}", model.width));
-    rep.class_if(shrunk && regrown, "int:shrink-then-grow");
-    rep.class_if(set_then_pack, "int:pack-after-set");
-    rep.class_if(wide_value, "int:value-wider-than-width");
-    if (shrunk && regrown) || set_then_pack {
+    rep.class_if(st.shrunk && st.regrown, "int:shrink-then-grow");
+    rep.class_if(st.set_then_pack, "int:pack-after-set");
+    rep.class_if(st.wide_value, "int:value-wider-than-width");
+    if (st.shrunk && st.regrown) || st.set_then_pack {
         rep.nontrivial(hash_of(&ops));
     }
     rep.class("int");
@@ -481,6 +522,47 @@ fn run_int(ops: &[IntOp], rep: &mut Report) -> Result<(), Fail> {
 
 fn value() -> BoxedStrategy<u64> {
     prop_oneof![3 => any::<u64>(), 1 => Just(!0u64), 1 => Just(0u64), 1 => 0u64..4, 1 => (0u32..64).prop_map(|k| 1u64 << k), 1 => (0u32..64).prop_map(|k| (1u64 << k) - 1)].boxed()
+}
+
+pub fn raw_op() -> BoxedStrategy<RawOp> {
+    prop_oneof![
+        4 => any::<bool>().prop_map(RawOp::PushBit),
+        6 => (value(), 0u8..65).prop_map(|(v, w)| RawOp::PushInt(v, w)),
+        3 => Just(RawOp::PopBit),
+        5 => (0u8..65).prop_map(RawOp::PopInt),
+        2 => (any::<u16>(), any::<bool>()).prop_map(|(f, b)| RawOp::SetBit(f, b)),
+        3 => (any::<u16>(), value(), 0u8..65).prop_map(|(f, v, w)| RawOp::SetInt(f, v, w)),
+        5 => (any::<u16>(), any::<bool>()).prop_map(|(f, b)| RawOp::Resize(f, b)),
+        1 => Just(RawOp::Clear),
+        1 => any::<u16>().prop_map(RawOp::Reserve),
+        1 => Just(RawOp::Complement),
+        1 => (any::<u16>(), any::<bool>()).prop_map(|(f, b)| RawOp::WithLen(f, b)),
+        1 => any::<u16>().prop_map(RawOp::WithCapacity),
+        1 => Just(RawOp::Clone),
+    ]
+    .boxed()
+}
+
+pub fn int_op() -> BoxedStrategy<IntOp> {
+    let vals = proptest::collection::vec(value(), 0..12);
+    prop_oneof![
+        2 => any::<u8>().prop_map(IntOp::New),
+        2 => (any::<u16>(), any::<u8>(), value()).prop_map(|(f, w, v)| IntOp::WithLen(f, w, v)),
+        1 => (any::<u16>(), any::<u8>()).prop_map(|(c, w)| IntOp::WithCapacity(c, w)),
+        1 => Just(IntOp::Default),
+        1 => (0u8..5, vals.clone()).prop_map(|(t, v)| IntOp::FromVec(t, v)),
+        1 => (0u8..5, vals.clone()).prop_map(|(t, v)| IntOp::Collect(t, v)),
+        8 => value().prop_map(IntOp::Push),
+        5 => Just(IntOp::Pop),
+        4 => (any::<u16>(), value()).prop_map(|(f, v)| IntOp::Set(f, v)),
+        4 => (any::<u16>(), value()).prop_map(|(f, v)| IntOp::Resize(f, v)),
+        1 => Just(IntOp::Clear),
+        1 => any::<u16>().prop_map(IntOp::Reserve),
+        3 => Just(IntOp::Pack),
+        2 => (0u8..5, vals).prop_map(|(t, v)| IntOp::Extend(t, v)),
+        1 => Just(IntOp::Clone),
+    ]
+    .boxed()
 }
 
 impl Prop for C05 {
@@ -494,42 +576,9 @@ impl Prop for C05 {
 
     fn strategy(tier: Tier, _cfg: &str) -> BoxedStrategy<Case> {
         let max_ops = tier.pick(60usize, 400usize);
-        let raw_op = prop_oneof![
-            4 => any::<bool>().prop_map(RawOp::PushBit),
-            6 => (value(), 0u8..65).prop_map(|(v, w)| RawOp::PushInt(v, w)),
-            3 => Just(RawOp::PopBit),
-            5 => (0u8..65).prop_map(RawOp::PopInt),
-            2 => (any::<u16>(), any::<bool>()).prop_map(|(f, b)| RawOp::SetBit(f, b)),
-            3 => (any::<u16>(), value(), 0u8..65).prop_map(|(f, v, w)| RawOp::SetInt(f, v, w)),
-            5 => (any::<u16>(), any::<bool>()).prop_map(|(f, b)| RawOp::Resize(f, b)),
-            1 => Just(RawOp::Clear),
-            1 => any::<u16>().prop_map(RawOp::Reserve),
-            1 => Just(RawOp::Complement),
-            1 => (any::<u16>(), any::<bool>()).prop_map(|(f, b)| RawOp::WithLen(f, b)),
-            1 => any::<u16>().prop_map(RawOp::WithCapacity),
-            1 => Just(RawOp::Clone),
-        ];
-        let vals = proptest::collection::vec(value(), 0..12);
-        let int_op = prop_oneof![
-            2 => any::<u8>().prop_map(IntOp::New),
-            2 => (any::<u16>(), any::<u8>(), value()).prop_map(|(f, w, v)| IntOp::WithLen(f, w, v)),
-            1 => (any::<u16>(), any::<u8>()).prop_map(|(c, w)| IntOp::WithCapacity(c, w)),
-            1 => Just(IntOp::Default),
-            1 => (0u8..5, vals.clone()).prop_map(|(t, v)| IntOp::FromVec(t, v)),
-            1 => (0u8..5, vals.clone()).prop_map(|(t, v)| IntOp::Collect(t, v)),
-            8 => value().prop_map(IntOp::Push),
-            5 => Just(IntOp::Pop),
-            4 => (any::<u16>(), value()).prop_map(|(f, v)| IntOp::Set(f, v)),
-            4 => (any::<u16>(), value()).prop_map(|(f, v)| IntOp::Resize(f, v)),
-            1 => Just(IntOp::Clear),
-            1 => any::<u16>().prop_map(IntOp::Reserve),
-            3 => Just(IntOp::Pack),
-            2 => (0u8..5, vals).prop_map(|(t, v)| IntOp::Extend(t, v)),
-            1 => Just(IntOp::Clone),
-        ];
         prop_oneof![
-            proptest::collection::vec(raw_op, 0..max_ops).prop_map(Case::Raw),
-            proptest::collection::vec(int_op, 0..max_ops).prop_map(Case::Int),
+            proptest::collection::vec(raw_op(), 0..max_ops).prop_map(Case::Raw),
+            proptest::collection::vec(int_op(), 0..max_ops).prop_map(Case::Int),
         ]
         .boxed()
     }
